@@ -348,14 +348,23 @@ class _StubRegr:
         Xt = [[T(X[i, j]) for j in range(m)] for i in range(n)]
         yt = [T(v) for v in y]
         wt = [T(v) for v in sample_weight] if sample_weight is not None else [z3.RealVal(1)] * n
-        resid = [sum(Xt[i][k] * coef[k].t for k in range(m)) - yt[i] for i in range(n)]
+        resid = [sum(E.zmul(Xt[i][k], coef[k].t) for k in range(m)) - yt[i] for i in range(n)]
         eqs = []
         for j in range(m):
             h = sum(wt[i] * Xt[i][j] * resid[i] for i in range(n))
             if self.alpha is not None:
                 h = h + T(self.alpha) * coef[j].t
             eqs.append(h)
-            eng.add(h == 0)
+            if ghost is not None and len(ghost) == m:
+                # assert scale_j * h == 0 instead (equivalent, scale_j > 0): the scaled columns cancel their
+                # denominators syntactically and the system stays linear in the unknowns for concrete matrices
+                sj = T(ghost[j])
+                hs = sum(wt[i] * E.zmul(Xt[i][j], sj) * resid[i] for i in range(n))
+                if self.alpha is not None:
+                    hs = hs + T(self.alpha) * coef[j].t * sj
+                eng.add(hs == 0)
+            else:
+                eng.add(h == 0)
         self.coef_ = coef
         REGRESSION_LOG.append({"X": X, "y": y, "w": sample_weight, "alpha": self.alpha, "coef": coef, "free": free, "normal_eqs": eqs, "kind": type(self).__name__})
         return self
